@@ -85,7 +85,7 @@ def render(tokens: T.Sequence[T.Dict[str, T.Any]], rnd: random.Random, trivia: b
                 emit(rnd.choice([' ', ' ', '  ', '\t', ' \t ']))
             if continuations and prev is not None and prev != 'eol' and r > 0.93:
                 emit('\\\n' + rnd.choice(['', '  ']))       # line continuation is whitespace
-            if t == 'eol' and rnd.random() < comments:
+            if t == 'eol' and rnd.random() < (0.6 if prev == 'not' else comments):
                 emit(rnd.choice(['# comment', '#', ' # a, b = (c']))
         elif need:
             emit(' ')
